@@ -1006,8 +1006,15 @@ func (c *Ctx) isNormalisedRef(fd *ast.FuncDecl, e ast.Expr, env map[types.Object
 		}
 		switch {
 		case c.isSpecFunc(call, "normalizeRef"):
-		case c.isSpecFunc(call, "NewRef") && len(call.Args) == 1:
-			inner, ok := unparen(call.Args[0]).(*ast.CallExpr)
+		case (c.isSpecFunc(call, "NewRef") || c.isSpecFunc(call, "MustCreateRef")) && len(call.Args) == 1:
+			arg := unparen(call.Args[0])
+			// the normalised text may sit in a local first: key := normalizeURI(..); ref := MustCreateRef(key)
+			if aid, isId := arg.(*ast.Ident); isId {
+				if ads := c.localDefs(fd)[c.objOf(aid)]; len(ads) == 1 && ads[0] != nil {
+					arg = unparen(ads[0])
+				}
+			}
+			inner, ok := arg.(*ast.CallExpr)
 			if !ok || !c.isSpecFunc(inner, "normalizeURI") {
 				return false
 			}
@@ -1024,6 +1031,18 @@ func (c *Ctx) refAlternatives(fam *expFamily, fd *ast.FuncDecl, e ast.Expr, env 
 	e = unparen(e)
 	if c.isZeroRefLit(e) {
 		return []refAlt{{class: "clear"}}
+	}
+	// a local that holds the result of a helper call
+	if id, ok := e.(*ast.Ident); ok && depth < 2 {
+		if ds := c.localDefs(fd)[c.objOf(id)]; len(ds) == 1 && ds[0] != nil {
+			if dc, isCall := unparen(ds[0]).(*ast.CallExpr); isCall {
+				if g, isF := c.callee(dc).(*types.Func); isF && g.Pkg() == c.Types && c.decl(g) != nil && !c.isSpecFunc(dc, "denormalizeRef") {
+					if sig := g.Type().(*types.Signature); sig.Results().Len() >= 1 && isNamed(sig.Results().At(0).Type(), c.Types, "Ref") && !c.isNormalisedRef(fd, e, env, 0) {
+						return c.refAlternatives(fam, fd, dc, env, depth)
+					}
+				}
+			}
+		}
 	}
 	if call, ok := e.(*ast.CallExpr); ok {
 		if c.isSpecFunc(call, "denormalizeRef") && len(call.Args) == 3 {
@@ -1042,7 +1061,7 @@ func (c *Ctx) refAlternatives(fam *expFamily, fd *ast.FuncDecl, e ast.Expr, env 
 		if g, ok := c.callee(call).(*types.Func); ok && g.Pkg() == c.Types && depth < 2 {
 			gfd := c.decl(g)
 			gsig := g.Type().(*types.Signature)
-			if gfd != nil && gfd.Body != nil && gsig.Results().Len() == 1 && isNamed(gsig.Results().At(0).Type(), c.Types, "Ref") {
+			if gfd != nil && gfd.Body != nil && gsig.Results().Len() >= 1 && isNamed(gsig.Results().At(0).Type(), c.Types, "Ref") {
 				c.saw(c.funcName(gfd))
 				genv := map[types.Object]argBinding{}
 				for i, a := range call.Args {
@@ -1056,8 +1075,19 @@ func (c *Ctx) refAlternatives(fam *expFamily, fd *ast.FuncDecl, e ast.Expr, env 
 						return false
 					}
 					rs, ok := n.(*ast.ReturnStmt)
-					if !ok || len(rs.Results) != 1 {
+					if !ok || len(rs.Results) != gsig.Results().Len() {
 						return true
+					}
+					// a helper that also returns flags: only the returns whose flags agree with the flags known to be
+					// set at the store are alternatives (v, isX, err := helper(..); if isX { holder.Ref = v })
+					for k := 1; k < len(rs.Results); k++ {
+						tv, isConst := c.Info.Types[rs.Results[k]]
+						if !isConst || tv.Value == nil || tv.Value.String() != "false" {
+							continue
+						}
+						if c.tupleFlagKnownTrue(fd, call, k) {
+							return true
+						}
 					}
 					for _, alt := range c.refAlternatives(fam, gfd, rs.Results[0], genv, depth+1) {
 						alt.lits = append(alt.lits, c.literalsAt(gfd, rs)...)
@@ -1288,4 +1318,51 @@ func (c *Ctx) foreignGuard(fd *ast.FuncDecl, call *ast.CallExpr, hp types.Object
 		}
 	}
 	return ""
+}
+
+// tupleFlagKnownTrue: the call is the right-hand side of `v, f1, .. := call` in fd, and every use of v as a
+// stored value happens where the k-th left-hand variable (a bool) is known to be true.
+func (c *Ctx) tupleFlagKnownTrue(fd *ast.FuncDecl, call *ast.CallExpr, k int) bool {
+	var flag, val types.Object
+	ast.Inspect(fd.Body, func(n ast.Node) bool {
+		as, ok := n.(*ast.AssignStmt)
+		if !ok || len(as.Rhs) != 1 || unparen(as.Rhs[0]) != ast.Expr(call) || k >= len(as.Lhs) {
+			return true
+		}
+		if id, ok := as.Lhs[k].(*ast.Ident); ok && id.Name != "_" {
+			flag = c.objOf(id)
+		}
+		if id, ok := as.Lhs[0].(*ast.Ident); ok && id.Name != "_" {
+			val = c.objOf(id)
+		}
+		return true
+	})
+	if flag == nil || val == nil {
+		return false
+	}
+	if b, ok := flag.Type().Underlying().(*types.Basic); !ok || b.Kind() != types.Bool {
+		return false
+	}
+	uses, guarded := 0, 0
+	ast.Inspect(fd.Body, func(n ast.Node) bool {
+		as, ok := n.(*ast.AssignStmt)
+		if !ok || len(as.Lhs) != len(as.Rhs) {
+			return true
+		}
+		for i, r := range as.Rhs {
+			id, isId := unparen(r).(*ast.Ident)
+			if !isId || c.objOf(id) != val {
+				continue
+			}
+			if _, lhsIdent := unparen(as.Lhs[i]).(*ast.Ident); lhsIdent {
+				continue
+			}
+			uses++
+			if c.entailsFlag(c.condsAt(fd, as), flag) {
+				guarded++
+			}
+		}
+		return true
+	})
+	return uses > 0 && uses == guarded
 }
